@@ -138,9 +138,11 @@ def describe_class(cls):
 def do_thread_plan(world, plan):
     """Executed by a simulated thread (and, sequentially, by the reference)."""
     classes = world.classes
-    Host = classes["host"]
     role = plan["role"]
     use = plan["first_use"]
+    # the class-level first uses aim at the parent or at the subclass itself (whose parent may or may not have been
+    # bootstrapped by somebody else by then)
+    Host = classes[plan.get("use_cls", "host")] if plan.get("use_cls", "host") in classes else classes["host"]
     out = {}
     if use == "spec_class_lookup":
         out["md"] = type(Host.__spec_class__).__name__
@@ -166,7 +168,7 @@ class C19(Check):
     PROP = "C19"
     LEVEL = "exploration"
     RUNS = {"quick": 600, "thorough": 20000}
-    PROFILE = {"p_lazy": 1.0, "allow_frozen": False, "allow_class_dnc": False, "n_attrs": (2, 5), "allow_new_shapes": True}
+    PROFILE = {"p_lazy": 1.0, "allow_frozen": False, "allow_class_dnc": False, "n_attrs": (2, 5), "allow_new_shapes": True, "p_sub": 0.6}
     RULE = ("one evaluation = one simulated run: a generated lazily-bootstrapped class (plus optional spec/plain subclass), "
             "2-3 threads each doing a first use + construction + helper call under one seeded schedule (bounded "
             "pre-emptions d<=3 at library line events biased to the bootstrap code, PCT-like priorities, or random "
@@ -187,6 +189,7 @@ class C19(Check):
             role = "sub" if (has_sub and src.chance(0.35)) else "host"
             plans.append({
                 "first_use": use, "dc": src.chance(0.5), "role": role,
+                "use_cls": "sub" if (has_sub and src.chance(0.5)) else "host",
                 "kw": self.gen_kw(src, spec, role), "sub_kw": self.gen_kw(src, spec, "sub") if has_sub else {},
                 "helper": self.gen_helper(src, spec, role),
             })
